@@ -195,9 +195,11 @@ def renderOuts (outs : List Out) : List String :=
   let dps := outs.filterMap fun
     | .dp c a => some (outDpStr c a)
     | _ => none
-  let sends := outs.filterMap fun
+  -- (peer 7 is the node whose address cannot be reached from the UPF's socket: what is sent there fails at `sendto` and is seen
+  --  by nobody — the request is outstanding all the same)
+  let sends := (outs.filterMap fun
     | .send to m => some (peerNum to, s!"send p={peerNum to} {msgStr m}")
-    | _ => none
+    | _ => none).filter (·.1 != 7)
   let peers := (sends.map (·.1)).eraseDups.mergeSort (· ≤ ·)
   dps ++ (peers.map fun p => (sends.filter (·.1 == p)).map (·.2)).flatten
 
